@@ -29,9 +29,9 @@ def charOfRef (digits : Str) (hex : Bool) : Option Char :=
 abbrev EntTable := List (Str × EntDef)
 
 def predefined : EntTable :=
-  [("lt".toList, .internal [.text ['<']]), ("gt".toList, .internal [.text ['>']]),
-   ("amp".toList, .internal [.text ['&']]), ("apos".toList, .internal [.text ['\'']]),
-   ("quot".toList, .internal [.text ['"']])]
+  [(['l', 't'], .internal [.text ['<']]), (['g', 't'], .internal [.text ['>']]),
+   (['a', 'm', 'p'], .internal [.text ['&']]), (['a', 'p', 'o', 's'], .internal [.text ['\'']]),
+   (['q', 'u', 'o', 't'], .internal [.text ['"']])]
 
 def entTableOf (d : Doctype) : EntTable :=
   d.kids.filterMap fun | .entity n e => some (n, e) | _ => none
@@ -256,7 +256,7 @@ def printPieces (ps : List Piece) : Str := ps.flatMap printPiece
     double quotes as `&quot;` -/
 def quoteAttr (v : Str) : Str :=
   if v.contains '"' && v.contains '\'' then
-    '"' :: (v.flatMap fun c => if c == '"' then "&quot;".toList else [c]) ++ ['"']
+    '"' :: (v.flatMap fun c => if c == '"' then ['&', 'q', 'u', 'o', 't', ';'] else [c]) ++ ['"']
   else escapeQ v
 
 def printAttr (a : Attr) : Str := a.name.text ++ '=' :: quoteAttr (printPieces a.vals)
@@ -284,9 +284,9 @@ end
 
 def printExtId (pub sys : Option Str) : Str :=
   match pub, sys with
-  | some p, some s => " PUBLIC ".toList ++ escapeQ p ++ ' ' :: escapeQ s
-  | some p, none => " PUBLIC ".toList ++ escapeQ p
-  | none, some s => " SYSTEM ".toList ++ escapeQ s
+  | some p, some s => [' ', 'P', 'U', 'B', 'L', 'I', 'C', ' '] ++ escapeQ p ++ ' ' :: escapeQ s
+  | some p, none => [' ', 'P', 'U', 'B', 'L', 'I', 'C', ' '] ++ escapeQ p
+  | none, some s => [' ', 'S', 'Y', 'S', 'T', 'E', 'M', ' '] ++ escapeQ s
   | none, none => []
 
 def sepBy (sep : Str) : List Str → Str
@@ -295,31 +295,31 @@ def sepBy (sep : Str) : List Str → Str
   | x :: r => x ++ sep ++ sepBy sep r
 
 def printAttType : AttType → Str
-  | .cdata => "CDATA".toList | .id => "ID".toList | .idref => "IDREF".toList | .idrefs => "IDREFS".toList
-  | .entity => "ENTITY".toList | .entities => "ENTITIES".toList | .nmtoken => "NMTOKEN".toList
-  | .nmtokens => "NMTOKENS".toList
-  | .notation ns => "NOTATION (".toList ++ sepBy ['|'] ns ++ [')']
+  | .cdata => ['C', 'D', 'A', 'T', 'A'] | .id => ['I', 'D'] | .idref => ['I', 'D', 'R', 'E', 'F'] | .idrefs => ['I', 'D', 'R', 'E', 'F', 'S']
+  | .entity => ['E', 'N', 'T', 'I', 'T', 'Y'] | .entities => ['E', 'N', 'T', 'I', 'T', 'I', 'E', 'S'] | .nmtoken => ['N', 'M', 'T', 'O', 'K', 'E', 'N']
+  | .nmtokens => ['N', 'M', 'T', 'O', 'K', 'E', 'N', 'S']
+  | .notation ns => ['N', 'O', 'T', 'A', 'T', 'I', 'O', 'N', ' ', '('] ++ sepBy ['|'] ns ++ [')']
   | .enumeration ts => '(' :: sepBy ['|'] ts ++ [')']
 
 def printDefault : AttDefault → Str
-  | .required => "#REQUIRED".toList
-  | .implied => "#IMPLIED".toList
-  | .value f vs => (if f then "#FIXED ".toList else []) ++ escapeQ (printPieces vs)
+  | .required => ['#', 'R', 'E', 'Q', 'U', 'I', 'R', 'E', 'D']
+  | .implied => ['#', 'I', 'M', 'P', 'L', 'I', 'E', 'D']
+  | .value f vs => (if f then ['#', 'F', 'I', 'X', 'E', 'D', ' '] else []) ++ escapeQ (printPieces vs)
 
 def printDtdItem : DtdItem → Str
-  | .attlist e defs => "<!ATTLIST ".toList ++ e.text ++
+  | .attlist e defs => ['<', '!', 'A', 'T', 'T', 'L', 'I', 'S', 'T', ' '] ++ e.text ++
       defs.flatMap (fun d => ' ' :: d.name.text ++ ' ' :: printAttType d.ty ++ ' ' :: printDefault d.dflt) ++ ['>']
-  | .entity n (.internal vs) => "<!ENTITY ".toList ++ n ++ ' ' :: escapeQ (printPieces vs) ++ ['>']
-  | .entity n (.external p s nd) => "<!ENTITY ".toList ++ n ++ printExtId p (some s) ++
-      (match nd with | some x => " NDATA ".toList ++ x | none => []) ++ ['>']
-  | .notation n p s => "<!NOTATION ".toList ++ n ++ printExtId p s ++ ['>']
+  | .entity n (.internal vs) => ['<', '!', 'E', 'N', 'T', 'I', 'T', 'Y', ' '] ++ n ++ ' ' :: escapeQ (printPieces vs) ++ ['>']
+  | .entity n (.external p s nd) => ['<', '!', 'E', 'N', 'T', 'I', 'T', 'Y', ' '] ++ n ++ printExtId p (some s) ++
+      (match nd with | some x => [' ', 'N', 'D', 'A', 'T', 'A', ' '] ++ x | none => []) ++ ['>']
+  | .notation n p s => ['<', '!', 'N', 'O', 'T', 'A', 'T', 'I', 'O', 'N', ' '] ++ n ++ printExtId p s ++ ['>']
   | .pi t d => printPI t d
 
 def printDoctype (d : Doctype) : Str :=
-  "<!DOCTYPE ".toList ++ d.name.text ++ printExtId d.pub d.sys ++
+  ['<', '!', 'D', 'O', 'C', 'T', 'Y', 'P', 'E', ' '] ++ d.name.text ++ printExtId d.pub d.sys ++
     (match d.kids with
      | [] => []
-     | ks => " [".toList ++ ks.flatMap printDtdItem ++ [']']) ++ ['>']
+     | ks => [' ', '['] ++ ks.flatMap printDtdItem ++ [']']) ++ ['>']
 
 def printTop : TopItem → Str
   | .comment s => ['<', '!', '-', '-'] ++ s ++ ['-', '-', '>']
